@@ -550,10 +550,18 @@ pub fn gtf_doc() -> BoxedStrategy<TextDoc> {
 /// BED with exactly `n` standard columns (3..=6) plus optional extra columns.
 pub fn bed_doc(n: usize) -> BoxedStrategy<TextDoc> {
     let rec = ("[A-Za-z0-9_]{1,8}", 0u32..1_000_000, 1u32..10_000, "[A-Za-z0-9_.]{1,8}", 0u16..=1000, proptest::sample::select(vec!["+", "-", "."]), proptest::collection::vec("[A-Za-z0-9_.,]{1,6}", 0..3));
-    (proptest::collection::vec(rec, 0..8), any::<bool>())
-        .prop_map(move |(recs, crlf)| {
+    (proptest::collection::vec(rec, 0..8), any::<bool>(), any::<u32>())
+        .prop_map(move |(recs, crlf, cseed)| {
             let mut lines = Vec::new();
+            let mut rng = XorShift::new(cseed as u64 + 17);
             for (chrom, start, len, name, score, strand, extra) in recs {
+                // comment lines (`#…`, which readers skip) in front of some records
+                if rng.next() % 4 == 0 {
+                    for _ in 0..1 + rng.next() % 2 {
+                        let n = (rng.next() % 40) as usize;
+                        lines.push(format!("#{}", "comment text, skipped by readers ".chars().cycle().take(n).collect::<String>()));
+                    }
+                }
                 let mut cols = vec![chrom, format!("{start}"), format!("{}", start + len)];
                 if n >= 4 {
                     cols.push(name);
